@@ -11,7 +11,7 @@ GO = "Go compiler/runtime and standard library (encoding/binary, time, hash/crc3
 
 PROPS = {
     "C12": {
-        "streams": [S("codec", 1500, 40000, vm=(60, 600))],
+        "streams": [S("codec", 1500, 40000, vm=(60, 600)), S("codecid", 60, 1500, vm=(4, 40), vm_maxlen=5000)],
         "trusted": [GO],
         "assumptions": ["time.Time is projected to (seconds, nanoseconds, zone offset); monotonic readings are dropped by MarshalBinary",
                         "nil and empty byte slices are identified"],
